@@ -293,10 +293,47 @@ def _schema_of(chk, m, e):
     return norm(e), 0
 
 
+def _scopes(prog, f):
+    """The function body plus the bodies of module-local helpers it calls directly, each with the binding of the
+    helper's parameters to the call's arguments (defaults included): one level of inlining."""
+    out = [(f.node, {})]
+    for c in walk_no_nested(f.node):
+        if isinstance(c, ast.Call) and isinstance(c.func, ast.Name):
+            r = prog.resolve_name(f.module, c.func.id)
+            if hasattr(r, "node") and hasattr(r, "module") and r.module is f.module and r.node is not f.node and isinstance(r.node, ast.FunctionDef):
+                a = r.node.args
+                params = [x.arg for x in a.args]
+                bind = {}
+                defaults = dict(zip(params[len(params) - len(a.defaults):], a.defaults))
+                bind.update(defaults)
+                for p_, v in zip(params, c.args):
+                    bind[p_] = v
+                for k in c.keywords:
+                    if k.arg:
+                        bind[k.arg] = k.value
+                out.append((r.node, bind))
+    return out
+
+
+def _find_calls(scopes, pred):
+    """[(call, binding)] over all scopes"""
+    out = []
+    for node, bind in scopes:
+        for c in walk_no_nested(node):
+            if isinstance(c, ast.Call) and pred(c):
+                out.append((c, bind))
+    return out
+
+
+def _subst(e, bind):
+    return bind[e.id] if isinstance(e, ast.Name) and e.id in bind else e
+
+
 def r2_subschemas(chk, kind, ver, wf, rf, wt, key0):
     prog = chk.prog
     m = wf.module
     obj = wf.params()[0]
+    rscopes = _scopes(prog, rf)
     atoms = [w for w in wt if w["field"] == "atoms"]
     bonds = [w for w in wt if w["field"] == "bonds"]
     chk.require(len(atoms) == 1 and len(bonds) == 1 and atoms[0]["comp"] is not None and bonds[0]["comp"] is not None,
@@ -306,12 +343,15 @@ def r2_subschemas(chk, kind, ver, wf, rf, wt, key0):
     chk.require(len(at) == 1 and at[0].args, f"{wf.key}: atom element is not a.as_tuple(SCHEMA)")
     wS, wk = _schema_of(chk, m, at[0].args[0])
     # atoms reader: Atom(**dict(zip(S, a)))
-    ra = [c for c in walk_no_nested(rf.node) if isinstance(c, ast.Call) and call_name(c) == "Atom"]
-    chk.require(len(ra) == 1, f"{rf.key}: expected one Atom(...) construction")
+    ra_all = _find_calls(rscopes, lambda c: call_name(c) == "Atom")
+    chk.require(len(ra_all) == 1, f"{rf.key}: expected one Atom(...) construction (directly or in a helper it calls), found {len(ra_all)}")
+    ra = [ra_all[0][0]]
+    rbind = ra_all[0][1]
     z = [c for c in ast.walk(ra[0]) if isinstance(c, ast.Call) and call_name(c) == "zip"]
     chk.require(len(z) == 1 and len(z[0].args) == 2, f"{rf.key}: Atom(**dict(zip(SCHEMA, a))) idiom not found")
-    rS, rk = _schema_of(chk, m, z[0].args[0])
-    same = (wS, wk) == (rS, rk) or (prog.const_eval(m, at[0].args[0]) == prog.const_eval(m, z[0].args[0]))
+    r_schema_expr = _subst(z[0].args[0], rbind)
+    rS, rk = _schema_of(chk, m, r_schema_expr)
+    same = (wS, wk) == (rS, rk) or (prog.const_eval(m, at[0].args[0]) == prog.const_eval(m, r_schema_expr))
     chk.decide(same and wk == 0, "C01.R2", f"{key0}:atom-schema", rf.where(ra[0]), f"writer and reader both use {wS}",
                f"atoms are written with {wS}[{wk}:] and read with {rS}[{rk}:]")
     want_schema = f"ATOM_SCHEMA_V{ver}"
@@ -344,16 +384,21 @@ def r2_subschemas(chk, kind, ver, wf, rf, wt, key0):
     chk.require(len(bt) == 1 and bt[0].args, f"{wf.key}: bond tail is not b.as_tuple(SCHEMA[k:])")
     wbS, wbk = _schema_of(chk, m, bt[0].args[0])
     # reader: res.connect(*b[:k], **dict(zip(S[k:], b[k:])))
-    cn = [c for c in walk_no_nested(rf.node) if isinstance(c, ast.Call) and isinstance(c.func, ast.Attribute) and c.func.attr == "connect"]
-    chk.require(len(cn) == 1, f"{rf.key}: expected one connect(...) call")
-    c = cn[0]
+    cn_all = _find_calls(rscopes, lambda c: isinstance(c.func, ast.Attribute) and c.func.attr == "connect")
+    chk.require(len(cn_all) == 1, f"{rf.key}: expected one connect(...) call (directly or in a helper it calls)")
+    c, cbind = cn_all[0]
     star = [a for a in c.args if isinstance(a, ast.Starred)]
     chk.require(len(star) == 1 and len(c.args) == 1 and isinstance(star[0].value, ast.Subscript), f"{rf.key}: connect(*b[:k], ...) idiom not found")
     sl = star[0].value.slice
     k1 = sl.upper.value if isinstance(sl, ast.Slice) and sl.lower is None and isinstance(sl.upper, ast.Constant) else None
     z = [x for x in ast.walk(c) if isinstance(x, ast.Call) and call_name(x) == "zip"]
     chk.require(len(z) == 1 and len(z[0].args) == 2, f"{rf.key}: connect(**dict(zip(S[k:], b[k:]))) idiom not found")
-    rbS, rbk = _schema_of(chk, m, z[0].args[0])
+    zs = z[0].args[0]
+    if isinstance(zs, ast.Subscript):
+        zs = ast.Subscript(value=_subst(zs.value, cbind), slice=zs.slice, ctx=ast.Load())
+    else:
+        zs = _subst(zs, cbind)
+    rbS, rbk = _schema_of(chk, m, zs)
     _, k3 = _schema_of(chk, m, z[0].args[1])
     ok = wbS == rbS and wbk == rbk == k1 == k3 == 2
     chk.decide(ok, "C01.R2", f"{key0}:bond-schema", rf.where(c), f"{wbS}[2:] both ways, endpoints b[:2]",
@@ -431,6 +476,17 @@ def r5_library(chk):
                 ok = hasattr(r, "module") and r.module.name == IO
                 chk.decide(ok, "C01.R5", f"{LIB}:{cname}:import:{fn}", init.where(), f"{fn} resolves to {IO}",
                            f"{fn} in library.py does not resolve to {IO}")
+        # the codec version must be a function of the file alone
+        v1 = [s_ for s_ in walk_no_nested(init.node) if isinstance(s_, ast.Assign) and norm(s_.targets[0]) == "_v" and norm(s_.value) == "1"]
+        chk.require(len(v1) == 1, f"{cname}.__init__: `_v = 1` not found")
+        foreign = set()
+        for g in walk_no_nested(init.node):
+            if isinstance(g, ast.If) and any(x is v1[0] for x in ast.walk(g)):
+                foreign |= names_in(g.test) - {"path", "Path", "header", "_v", "os", "f"}
+        chk.decide(not foreign, "C01.R5", f"{init.key}:version-from-file-only", init.where(v1[0]),
+                   "the legacy codec is selected from the file's own header and nothing else",
+                   f"the choice of the v1 codec also depends on {sorted(foreign)}: the same legacy file gets different codecs depending on how it is opened, "
+                   "so what one handle writes another cannot read")
         # version selection by magic
         magic = [c for c in ast.walk(init.node) if isinstance(c, ast.Constant) and c.value == b"ML10Library"]
         chk.decide(len(magic) == 1, "C01.R5", f"{init.key}:v1-magic", init.where(), "legacy codec chosen by file magic ML10Library",
